@@ -18,6 +18,7 @@ Spec format (plain JSON)
                 / ['arg', i] (presync(index='p<i>'): the index of that argument)
 """
 import datetime
+import json
 import os
 
 from hypothesis import strategies as st
@@ -318,6 +319,8 @@ def _mk_index(pos):
 def _build_case(spec):
     """builds spec['tree']; with spec['share_index'] timeseries whose stamps are equal share one index object (as columns cut out
     of one frame, or series built on one calendar, do)"""
+    if _OBJECTS[0] is not None:        # inside a session: objects and index objects are managed by run_session
+        return _build(spec['tree'])
     _SHARED[0] = {} if spec.get('share_index') else None
     try:
         return _build(spec['tree'])
@@ -342,7 +345,19 @@ def _share_classes(spec, leaves):
     return cls
 
 
+_OBJECTS = [None]     # while a session case runs: timeseries leaf spec (json) -> the ONE object built for it, shared by all calls of the session
+
+
 def _build(node):
+    if _OBJECTS[0] is not None and node[0] in ('s', 'f'):
+        key = json.dumps(node)
+        if key not in _OBJECTS[0]:
+            _OBJECTS[0][key] = _build_node(node)
+        return _OBJECTS[0][key]
+    return _build_node(node)
+
+
+def _build_node(node):
     import numpy as np
     import pandas as pd
     t = node[0]
@@ -1227,6 +1242,70 @@ def _arrays_case(draw, maxlen=6):
     return _repair_f14(spec)
 
 
+# ============================================================================================ several calls on the same objects
+
+@st.composite
+def _session_case(draw):
+    """3-4 timeseries built ONCE; 2-4 calls of df_index / df_reindex / df_sync / a presync function on ordered selections of those same objects,
+    half of the selections a prefix or an extension of the previous one, mostly under one join policy"""
+    state = dict(k=0, prev=[], family=draw(_family))
+    n = draw(st.integers(3, 4))
+    pool = [draw(_ts_leaf(state, ['s', 's', 's', 'f'])) for _ in range(n)]
+    k0 = draw(st.sampled_from(['i', 'o', 'l', 'r']))
+    calls, prev = [], None
+    for _ in range(draw(st.integers(2, 4))):
+        how = draw(st.sampled_from(['prefix', 'prefix', 'extend', 'free', 'same'])) if prev else 'free'
+        if how == 'prefix' and len(prev) >= 3:
+            sel = prev[:draw(st.integers(2, len(prev) - 1))]
+        elif how == 'extend' and len(prev) < n:
+            sel = prev + [i for i in range(n) if i not in prev][:draw(st.integers(1, n - len(prev)))]
+        elif how == 'same':
+            sel = list(prev)
+        else:
+            sel = list(draw(st.permutations(list(range(n)))))[:draw(st.integers(2, n))]
+        prev = sel
+        k = k0 if draw(st.integers(0, 3)) else draw(st.sampled_from(['i', 'o', 'l', 'r']))
+        join = _SPELL[k][draw(st.booleans())]
+        fn = draw(st.sampled_from(['df_sync', 'df_reindex', 'df_index', 'presync']))
+        tree = ['list', [pool[i] for i in sel]]
+        method = draw(st.sampled_from(METHODS))
+        if fn == 'presync':
+            c = dict(call='presync', tree=tree, join=join, method=method, columns=False, how=draw(st.sampled_from(['ctor', 'call'])), npos=len(sel), sig='named')
+        else:
+            c = dict(call=fn, tree=tree, join=join, method=method)
+            if fn == 'df_sync':
+                c['columns'] = draw(st.sampled_from(['ij', 'oj', False]))
+        calls.append(dict(sel=sel, call=_repair(c)))
+    return dict(calls=calls, share_index=draw(st.booleans()))
+
+
+def run_session(spec):
+    _OBJECTS[0] = {}
+    shared = {} if spec.get('share_index') else None
+    try:
+        for c in spec['calls']:
+            sub = dict(c['call'], share_index=False)
+            _SHARED[0] = shared             # the index objects too live for the whole session (_build_case resets the slot: objects are cached, so only new leaves ask)
+            (run_presync if sub['call'] == 'presync' else run_sync)(sub)
+        sels = [c['sel'] for c in spec['calls']]
+        rel = set()
+        for a, b in zip(sels, sels[1:]):
+            if a != b and (a[:len(b)] == b or b[:len(a)] == a):
+                rel.add('operands_prefix_of_previous_call' if len(b) < len(a) else 'operands_extend_previous_call')
+            if a == b:
+                rel.add('same_operands_again')
+        fns = [c['call']['call'] for c in spec['calls']]
+        cls = ['calls=%i' % len(fns)] + sorted(rel)
+        if len(set(fns)) > 1:
+            cls.append('different_entry_points_share_operands')
+        if len(set(_jkind(c['call']['join']) for c in spec['calls'])) == 1:
+            cls.append('one_join_policy_throughout')
+        return dict(nt=bool(rel - {'same_operands_again'}), cls=cls)
+    finally:
+        _OBJECTS[0] = None
+        _SHARED[0] = None
+
+
 # ============================================================================================ registration
 
 _RULE_TS = ('timeseries = float Series (NaN sprinkled / none / all NaN), int Series, frames with 2-3 columns out of a,b,c,d (NaN by row, by cell, none) and '
@@ -1263,6 +1342,11 @@ SUBS = [
              'common index, as-of filled) or NaN when the frame lacks it, single-column frames as their column, Series aligned, the rest identical',
         floor=0.3, class_floors={'sig=varargs': 0.05, 'sig=varkw': 0.05, 'sig=var_both': 0.05, 'frames_differing_columns': 0.1, 'all_frames_same_columns': 0.1,
                                   'same_span_same_length_different_interior': 0.04, 'twins_under_ij_oj': 0.01, 'same_length_different_stamps': 0.04, 'nested_chain': 0.03}),
+    Sub('session', lambda tier: _session_case(), run_session, quick=800, thorough=6000,
+        rule=_RULE_TS + '3-4 Series / frames built ONCE, then 2-4 calls of df_index / df_reindex / df_sync / presync(f) on ordered selections of those same objects (half of them a '
+             'prefix or an extension of the previous selection), mostly under one join policy; every call judged by the oracle of sync / presync, so a result may not depend on '
+             'what was aligned before. non-trivial = two consecutive calls whose operand lists are prefix-related',
+        floor=0.2, class_floors={'operands_prefix_of_previous_call': 0.15, 'operands_extend_previous_call': 0.1, 'different_entry_points_share_operands': 0.2, 'one_join_policy_throughout': 0.2}),
     Sub('arrays', lambda tier: _arrays_case(6 if tier == 'quick' else 9), run_arrays, quick=2000, thorough=12000,
         rule='trees (depth <= 3) of bare numpy arrays: 1-d and 2-d (1-3 columns), 0-6 rows (0-9 thorough), float64 with NaN / int64, mixed with scalars; '
              'df_sync / df_reindex / df_index / presync(columns=False) with ij,oj,lj,rj and method None/ffill/bfill. Oracle: common length = min/max/first/last, '
